@@ -182,6 +182,11 @@ RULE = ('every descriptor the real loader exports (ESTA + manufacturer, GET/SET 
         'manufacturer, ESTA PIDs, new PIDs, new manufacturers, mixtures; or none) through LoadFromDirectory of '
         'RootPidStore and PidStoreLoader and LoadFromStream, validate on and off, against the model table '
         'override_descs/override_pids (key lx + digest; the digest also checks the by-name index); '
+        '`many N`: N rounds of every loader entry point in one process under RLIMIT_NOFILE = open descriptors + 24; '
+        'every load must succeed with the same table and the number of open descriptors must not change; '
+        '`race T R`: R fresh validate=false stores, T threads (own deserializer each) make the first use of every '
+        'group-bearing descriptor simultaneously (barrier per item), answers compared with the single-threaded '
+        'ones and the store swept again afterwards (probabilistic; a correct tree cannot fail); '
         '`conc T N`: T threads with their own deserializer/serializer decode a fixed work list N times and count '
         'results differing from the single-threaded answers (key conc; races are detected probabilistically, a '
         'correct tree cannot fail) - detection of pointer-keyed caches depends on heap address reuse and is '
@@ -210,7 +215,7 @@ TRUSTED = ['modelled rather than verified: Descriptor.h/.cpp size functions, Des
            'GroupSizeCalculator is modelled (gcalc) and compared on every case with the payload length as token '
            'count (key gs, internal); PidStoreHelper, StringMessageBuilder and the message printers are outside '
            'the decode/re-encode path and not covered']
-SPEC_KEYS = ['h', 'ld', 'lx', 'nstores', 'dg', 'conc', 'items', 'helper', 'r', 'ser', 'same', 'again', 'shared', 'ldes', 'sweep', 'n', 'cc', 'specfail', 'ndesc', 'npids', 'load']
+SPEC_KEYS = ['h', 'many', 'race', 'post', 'ld', 'lx', 'nstores', 'dg', 'conc', 'items', 'helper', 'r', 'ser', 'same', 'again', 'shared', 'ldes', 'sweep', 'n', 'cc', 'specfail', 'ndesc', 'npids', 'load']
 # not property-determined (internal): d (descriptor text), cs (calculator state), gs (GroupSizeCalculator state),
 # m (message text), cap (m_buffer_size)
 INTERNAL_KEYS = []
@@ -396,6 +401,9 @@ def gen_cases(rng, tier):
     # the data directory through 9 spellings of its path; T threads x N rounds of concurrent decoding
     extra = ['load %d' % k for k in range(9)] * (2 if quick else 4)
     extra += ['conc %d %d' % (t, n) for t in (2, 4) for n in ((30, 60) if quick else (30, 60, 120, 250))] * (8 if quick else 16)
+    # repeated loads under a lowered descriptor limit; first-use races on cold (validate=false) stores
+    extra += ['many %d' % n for n in ((6, 10) if quick else (6, 10, 40, 80))] * 2
+    extra += ['race %d %d' % (t, r) for t in (2, 4) for r in ((3, 5) if quick else (3, 5, 10))] * (4 if quick else 8)
     rng.shuffle(extra)
     every = max(1, len(inner) // len(extra))
     merged = []
